@@ -283,6 +283,12 @@ class FnFacts:
         ends in raise <allowed>.  Returns (ok, description)."""
         st = self.stmt_of(node)
         for parent, branch in self.ancestors(st):
+            if isinstance(parent, ast.With) and branch == "body":
+                # `with converting_errors(...):` - a @contextmanager whose
+                # body is `try: yield / except X: raise Y`
+                tr = self._contextmanager_try(parent)
+                if tr is not None:
+                    parent, branch = tr, "body"
             if isinstance(parent, ast.Try) and branch == "body":
                 caught_all = True
                 for eff in effects:
@@ -309,6 +315,27 @@ class FnFacts:
                     return True, "try/except -> %s" % ",".join(
                         sorted(a.rsplit(".", 1)[-1] for a in allowed))
         return False, "not inside a try that converts %s" % ",".join(effects)
+
+    def _contextmanager_try(self, with_node):
+        """The try statement wrapped around the `yield` of a local
+        @contextmanager function used by this with-statement, else None."""
+        from .core import resolve_local_call
+        for item in with_node.items:
+            c = item.context_expr
+            if not isinstance(c, ast.Call):
+                continue
+            h = resolve_local_call(self.fn, c)
+            if h is None:
+                continue
+            decos = [dotted(d) or "" for d in h.node.decorator_list]
+            if not any(d.endswith("contextmanager") for d in decos):
+                continue
+            for st in stmts_of(h.node):
+                if isinstance(st, ast.Try) and any(
+                        isinstance(x, ast.Expr) and isinstance(
+                            x.value, ast.Yield) for x in st.body):
+                    return st
+        return None
 
     def _built_by_helper(self, name):
         """Exception classes a module-level helper `name(...)` returns, or
@@ -931,7 +958,10 @@ def _reshape_discharge(scope, ff, node, operand, depth=0, bind=None):
                         % norm(e.args[0])
                 exact = any(isinstance(c, ast.Compare) and
                             isinstance(c.ops[0], (ast.NotEq, ast.Eq))
-                            for c in walk_local(g.test))
+                            for c in walk_local(g.test)) or any(
+                    # `if len(buf) % n:` - truthiness of a remainder
+                    isinstance(c, ast.BinOp) and isinstance(c.op, ast.Mod)
+                    for c in walk_local(g.test))
                 if not exact:
                     return False, "guard `%s` does not fix the size" \
                         % norm(g.test)
